@@ -31,6 +31,7 @@ def parseRhs (j : Json) : Except String Rhs := do
   | "gen" => return genMarker
   | "atom" => return .atom (← parseAtom (← j.getObjVal? "a"))
   | "cont" => return .cont (← (← getArr j "items").toList.mapM parseAtom)
+  | "cont2" => return .cont2 (← (← getArr j "rows").toList.mapM fun r => do (← r.getArr?).toList.mapM parseAtom)
   | k => throw s!"unknown rhs {k}"
 
 def parseKvs (j : Json) : Except String (List (Nat × Rhs)) := do
@@ -42,11 +43,16 @@ def parseKvs (j : Json) : Except String (List (Nat × Rhs)) := do
 def parseVal (j : Json) : Except String Val :=
   match j.getInt? with
   | .ok n => return .int n
-  | .error _ => do return .tup (← (← j.getArr?).toList.mapM (·.getInt?))
+  | .error _ => do
+    let items := (← j.getArr?).toList
+    -- a tuple of ints, or (as soon as one item is a list itself) a tuple of tuples
+    if items.any (fun x => x.getArr?.toOption.isSome) then
+      return .nest (← items.mapM fun r => do (← r.getArr?).toList.mapM (·.getInt?))
+    else return .tup (← items.mapM (·.getInt?))
 
 def parseDecl (j : Json) : Except String (PDecl × Val) := do
   let kind ← match ← getStr j "kind" with
-    | "int" => pure Kind.int | "pair" => pure Kind.pair | k => throw s!"kind {k}"
+    | "int" => pure Kind.int | "pair" => pure Kind.pair | "any" => pure Kind.any | k => throw s!"kind {k}"
   return ({ kind := kind, lo := ← optInt j "lo", hi := ← optInt j "hi", constant := ← getBool j "constant",
             readonly := ← getBool j "readonly", allowRefs := ← getBool j "allow_refs",
             nestedRefs := ← getBool j "nested_refs" }, ← parseVal (← j.getObjVal? "default"))
@@ -104,6 +110,7 @@ def placeGenOp (ds : List (List PDecl)) : Op → Op
 def jVal : Val → Json
   | .int n => toJson n
   | .tup l => Json.arr (l.map toJson).toArray
+  | .nest l => Json.arr (l.map fun r => Json.arr (r.map toJson).toArray).toArray
 
 def jAtom : Atom → Json
   | .lit n => Json.mkObj [("a", "lit"), ("n", toJson n)]
@@ -115,6 +122,7 @@ def jAtom : Atom → Json
 def jRhs : Rhs → Json
   | .atom a => Json.mkObj [("k", "atom"), ("a", jAtom a)]
   | .cont items => Json.mkObj [("k", "cont"), ("items", Json.arr (items.map jAtom).toArray)]
+  | .cont2 rows => Json.mkObj [("k", "cont2"), ("rows", Json.arr (rows.map fun r => Json.arr (r.map jAtom).toArray).toArray)]
 
 def jList {α} (f : α → Json) (l : List α) : Json := Json.arr (l.map f).toArray
 
